@@ -10,7 +10,7 @@ PID = "C11"
 PUBLIC = ["outcome_type", "statements", "source", "target", "intermediate", "column_paths", "cyto_table", "cyto_column", "summary",
           "column_paths_incl_subquery", "column_paths_no_subquery_columns"]
 RULE = ("case = (script, dialect, metadata) from the harvested corpus, TPC-DS and order-sensitive generated scripts; each is run in worker processes "
-        "started with different PYTHONHASHSEED, twice in the same process, and with accessors called in a seeded permutation with repeats; "
+        "started with different PYTHONHASHSEED, twice in the same process, three times through one reused provider object, and with accessors called in a seeded permutation with repeats; "
         "the canonical public records (anonymous subquery names and export edge ids neutralised) must be equal; non-trivial = analysis returned a result in the reference process")
 
 EXTRAS = [
@@ -97,6 +97,7 @@ def run(tier):
     per = max(2, NCPU // len(seeds)) if tier == "quick" else 4
     run_.need("cross_process_comparisons")
     run_.need("accessor_order_comparisons")
+    run_.need("same_provider_repetitions")
     ref = None
     allrecs = {}
     # run in waves of pools so that at most NCPU workers exist at a time
@@ -128,6 +129,9 @@ def run(tier):
                     pc["order"] = order
                     perm_cases.append(pc)
                 perm = p0.map("vlib.observe:run_case", perm_cases, timeout=180)
+                # repetitions through one provider object
+                md_idx = [i for i, c in enumerate(cases) if c.get("metadata")]
+                same = dict(zip(md_idx, p0.map("vlib.observe:run_same_provider", [cases[i] for i in md_idx], timeout=400)))
         finally:
             for _, p in pools:
                 p.close()
@@ -161,6 +165,16 @@ def run(tier):
             d = diff_fields(a, pub(r3))
             if d:
                 run_.judge(common.brief(case), "repetition_differs", {"fields": d}, kf_id=None)
+        if i in same:
+            st5, r5 = same[i]
+            if run_.pool_status(st5, r5, common.brief(case)):
+                for k, rk in enumerate(r5):
+                    run_.observe("same_provider_repetitions")
+                    d = diff_fields(a, pub(rk))
+                    if d:
+                        b = pub(rk)
+                        run_.judge(common.brief(case), "repetition_on_the_same_provider_differs", {"repetition": k + 1, "fields": d, "a": {f: a[f] for f in d}, "b": {f: b[f] for f in d}}, kf_id=None)
+                        break
         st4, r4 = perm[i]
         if run_.pool_status(st4, r4, common.brief(case)):
             run_.observe("accessor_order_comparisons")
